@@ -90,6 +90,74 @@ class MRun:
         m = self.vm.solver.model()
         return m
 
+    def run_parallel(self, jobs, workers=None):
+        """jobs: [(kernel function taking this MRun first, args tuple)].  Each job runs in a forked child on a copy of
+        this MRun (MIR already loaded); candidates and statistics are merged back.  Returns the concatenated candidates."""
+        import multiprocessing as mp
+        import pickle
+        ctx = mp.get_context('fork')
+
+        def child(conn, fn, args):
+            try:
+                # statistics are reported as deltas: start every counter from zero in the child
+                self.paths = self.obligations = self.discharged = self.panics = 0
+                self.inconclusive, self.samples, self.kernels, self.cross = [], [], {}, []
+                self.vm.queries, self.vm.solver_time = 0, 0.0
+                cands = fn(self, *args)
+                stats = dict(paths=self.paths, obligations=self.obligations, discharged=self.discharged, inconclusive=self.inconclusive,
+                             samples=self.samples, kernels=self.kernels, panics=self.panics, cross=self.cross[:12],
+                             used_functions=set(self.vm.used_functions), used_summaries=set(self.vm.used_summaries),
+                             queries=self.vm.queries, solver_time=self.vm.solver_time)
+                conn.send_bytes(pickle.dumps((cands, stats, None)))
+            except BaseException as e:  # noqa
+                conn.send_bytes(pickle.dumps(([], None, f'{type(e).__name__}: {e}')))
+            finally:
+                conn.close()
+                os._exit(0)
+
+        procs = []
+        sem = workers or min(len(jobs), 8)
+        pending = list(enumerate(jobs))
+        running = []
+        results = {}
+        while pending or running:
+            while pending and len(running) < sem:
+                i, (fn, args) = pending.pop(0)
+                a, b = ctx.Pipe(duplex=False)
+                p_ = ctx.Process(target=child, args=(b, fn, args))
+                p_.start()
+                b.close()
+                running.append((i, p_, a, fn))
+            i, p_, a, fn = running.pop(0)
+            try:
+                results[i] = pickle.loads(a.recv_bytes())
+            except EOFError:
+                results[i] = ([], None, f'{fn.__name__}: worker died')
+            p_.join()
+        out = []
+        for i in sorted(results):
+            cands, stats, err = results[i]
+            if err:
+                self.inconclusive.append(f'{jobs[i][0].__name__}: {err}')
+                continue
+            out += cands
+            self.paths += stats['paths']
+            self.obligations += stats['obligations']
+            self.discharged += stats['discharged']
+            self.inconclusive += stats['inconclusive']
+            self.samples += stats['samples']
+            for k, v in stats['kernels'].items():
+                d = self.kernels.setdefault(k, dict(paths=0, scenarios=0))
+                d['paths'] += v['paths']
+                d['scenarios'] += v['scenarios']
+            self.panics += stats['panics']
+            self.cross += stats['cross']
+            self.vm.used_functions |= stats['used_functions']
+            self.vm.used_summaries |= stats['used_summaries']
+            self.vm.queries += stats['queries']
+            self.vm.solver_time += stats['solver_time']
+        return out
+
     def sample(self, item):
         if len(self.samples) < 12:
             self.samples.append(item)
